@@ -590,12 +590,39 @@ func (a *vzAdv) injectBadProposal() {
 			}
 			vict := 1 + s.Choose("vict", w.cfg.nVal-1)
 			prevH := ph.Header.Height - 1
+			// The genuine nil precommit must come from a validator that is not among the signers of the
+			// committed block in this proof (otherwise the proof is rejected as double signed before any
+			// signature is looked at): take the victim out of the main entry if the rest still exceeds 2/3.
+			mainHash := string(ph.Header.PrevBlockHash)
+			victID := a.keyID(prevH, vict)
+			var kept []gcrypto.SparseSignature
+			rest := map[int]bool{}
+			for _, sg := range np.Proofs[mainHash] {
+				if string(sg.KeyID) == string(vzKeyID(victID)) {
+					continue
+				}
+				kept = append(kept, sg)
+				for j := 1; j < w.cfg.nVal; j++ {
+					if string(vzKeyID(a.keyID(prevH, j))) == string(sg.KeyID) {
+						rest[j] = true
+					}
+				}
+			}
+			genuine := false
+			if p2, total := a.power(prevH, rest); 3*p2 > 2*total {
+				np.Proofs[mainHash] = kept
+				genuine = true
+			}
 			genuineNil := a.signVote(1, prevH, p.Round, "", vict)
 			garbage := append([]byte(nil), genuineNil...)
 			garbage[5] ^= 0x77
-			other := (vict % (w.cfg.nVal - 1)) + 1
-			np.Proofs[""] = append(np.Proofs[""], gcrypto.SparseSignature{KeyID: vzKeyID(a.keyID(prevH, vict)), Sig: genuineNil},
-				gcrypto.SparseSignature{KeyID: vzKeyID(a.keyID(prevH, other)), Sig: garbage})
+			// the forged signature is filed under the key of the real node, which never is in the puppets' proof
+			forged := gcrypto.SparseSignature{KeyID: vzKeyID(a.keyID(prevH, 0)), Sig: garbage}
+			if genuine {
+				np.Proofs[""] = append(np.Proofs[""], gcrypto.SparseSignature{KeyID: vzKeyID(victID), Sig: genuineNil}, forged)
+			} else {
+				np.Proofs[""] = append(np.Proofs[""], forged)
+			}
 			ph.Header.PrevCommitProof = np
 			w.fx.RecalculateHash(&ph.Header)
 			w.fx.SignProposal(context.Background(), &ph, 1)
